@@ -137,6 +137,23 @@ func init() {
 					L.Docs["foreign.yaml"] = twins
 				}
 			}
+			// annotation directives as frequent as label directives; some workloads carry the directive's pair on their metadata
+			// already (from their file): the pod template needs it all the same
+			for _, L := range t.Layers {
+				if L.Annos == nil && r.Intn(2) == 0 {
+					L.Annos = map[string]string{"note": pickS(r, []string{"hello", "x y"})}
+					L.Kust["commonAnnotations"] = toObj(L.Annos)
+				}
+			}
+			for _, g := range t.Res {
+				if !g.Gen && isWorkload(g.Kind) && r.Intn(3) == 0 {
+					if md, ok := g.Obj["metadata"].(Obj); ok {
+						if an, ok := md["annotations"].(Obj); ok {
+							an["note"] = pickS(r, []string{"hello", "x y"})
+						}
+					}
+				}
+			}
 			// make label directives frequent
 			for _, L := range t.Layers {
 				if L.Labels == nil && r.Intn(2) == 0 {
@@ -213,6 +230,31 @@ func init() {
 						want[k] = v
 						wantMeta[k] = v
 						wantTmpl[k] = v
+					}
+				}
+				// annotations: the union of the chain's commonAnnotations (outer layers win) is on the metadata and, for workloads,
+				// on the pod template (and the job template of a CronJob)
+				wantAnn := map[string]string{}
+				for _, li := range t.Chain(g.Layer) {
+					for k, v := range t.Layers[li].Annos {
+						wantAnn[k] = v
+					}
+				}
+				if len(wantAnn) > 0 {
+					ma := strMap(mustGet(d, "metadata", "annotations"))
+					for k, v := range wantAnn {
+						if ma[k] != v {
+							o.fail("annotation-missing-in-metadata", fmt.Sprintf("%s %s: metadata annotation %s is %q, the directives give %q", g.Kind, g.Name, k, ma[k], v), cs, t.Describe(), ma, wantAnn)
+						}
+					}
+					if tm := templateMetaPath(g.Kind); tm != nil && isWorkload(g.Kind) && !g.Gen {
+						tv, _ := getPath(map[string]interface{}(d), ipath(tm, "annotations"))
+						ta := strMap(tv)
+						for k, v := range wantAnn {
+							if ta[k] != v {
+								o.fail("annotation-missing-in-template", fmt.Sprintf("%s %s: pod template annotation %s is %q, the directives give %q", g.Kind, g.Name, k, ta[k], v), cs, t.Describe(), ta, wantAnn)
+							}
+						}
 					}
 				}
 				ml := strMap(mustGet(d, "metadata", "labels"))
